@@ -809,6 +809,14 @@ func c04(c *Ctx) (*report.Result, error) {
 	}
 	res.Explanation = "SSA of proxy.streamRouting (identity of the latch handed to both Run calls through the goroutine closures' captured cell, AfterFunc wiring), of every worker function of sender and receiver (deferred Shutdown covering all exits), a construction-site inventory of proxyStreamSender / proxyStreamReceiver and a who-may-write inventory of the per-incarnation fields (id ring, channels, per-target ack map, lastSentMin). These are the mechanisms that keep a broken stream from leaving acknowledged-but-unconfirmed state behind; the enumeration of break points x reconnection orders itself is a fault-sequence statement and is not decided."
 	res.Assumptions = []string{"the source cluster resends from its acknowledged level after a reconnect (Temporal behaviour)"}
+	res.RuleDoc["O4.15"] = "the keep-alive repeats the aggregate, not one target's report: lastSentAck is assigned only the request that was just sent with the aggregated minimum (after a successful Send), and the keep-alive re-sends that stored object (same analysis as O3.4) - a single target's ack replayed after a quiet second acknowledges what the slower or broken targets never confirmed"
+	if r3, err := Registry["C03"](c); err == nil && r3 != nil {
+		if n := importObligations(res, r3, "O4.15", func(o report.Obligation) bool { return o.Rule == "O3.4" }); n < 2 {
+			res.Undec("O4.15", "keep-alive obligations of O3.4", "", fmt.Sprintf("%d imported, at least 2 expected", n))
+		}
+	} else if err != nil {
+		res.Undec("O4.15", "keep-alive obligations of O3.4", "", err.Error())
+	}
 	res.RuleDoc["O4.10"] = "no swallowed error in the files the mechanism lives in: no function returns a nil error on a path on which an error obtained from a call is known to be non-nil (io.EOF from a stream Recv, the normal end of a receive loop, is the one accepted idiom)"
 	checkNoSwallowedErrors(c, res, "O4.10", []string{"proxy/proxy_streams.go", "proxy/admin_stream_transfer.go", "proxy/shard_manager.go"})
 	res.RuleDoc["O4.11"] = "relay loops pass every message on: in every loop that takes messages from a stream or channel and forwards them, no path from the take to the next take avoids every stream Send / channel send / Deliver*ToShardOwner (a forwarding loop that runs zero times, the wrong-kind edges of a type assertion and a return that ends the stream are not bypasses; the ack aggregator sendAck is the reviewed exception)"
